@@ -1,6 +1,6 @@
-// FAMILY(lifecycle, "C19 random documented API lifecycles: ledger at every quiescent point, double frees, poison differential (nonsingular + last-pivot-singular inputs, safe ILU options)")
+// FAMILY(lifecycle, "C19 random documented API lifecycles: ledger at every quiescent point, double frees, poison differential (LU drivers and pipeline; nonsingular + last-pivot-singular inputs)")
 // FAMILY(lifecycle_sing, "C19 the same lifecycles on generally singular inputs (structurally singular, duplicate columns, exact cancellation): singular-input stream")
-// FAMILY(lifecycle_ilu, "C19 gsisx lifecycles with aggressive dropping / singular inputs: ilu-risky stream")
+// FAMILY(lifecycle_ilu, "C19 all gsisx (ILU) lifecycles, default and aggressive dropping, nonsingular and singular inputs: ilu-risky stream")
 /* One case = one lifecycle: create, (order), factor with a driver or the pipeline, optional size query
  * (lwork = -1), optional out-of-space attempt (small caller workspace, or a failed allocation injected
  * with led_fault_arm), then a random sequence of re-solves (FACTORED), re-factorizations with each Fact
@@ -84,8 +84,10 @@ static void gmat_dup_col(gmat_t *g, int src, int dst) {
 static void plan_gen(rng_t *r, int thorough, char ty, int stream, plan_t *p) {
     memset(p, 0, sizeof *p);
     p->ty = ty; int cplx = (ty == 'c' || ty == 'z');
-    p->style = stream == 2 ? ST_GSISX : rng_int(r, 0, 3);
-    if (stream == 1 && p->style == ST_GSISX) p->style = rng_int(r, 0, 2);
+    /* every gsisx lifecycle lives in the ilu-risky stream (the zero-pivot path of ?gsitrf leaves subscripts -1 in L,
+       an open finding, and can be reached with any option set); main and singular-input are LU only */
+    p->style = stream == 2 ? ST_GSISX : rng_int(r, 0, 2);
+    int risky = stream == 2 && rng_chance(r, 0.6);
     p->n = rng_int(r, 1, thorough ? 30 : 12); if (rng_chance(r, 0.15)) p->n = rng_int(r, 13, thorough ? 60 : 26);
     p->nrhs = rng_int(r, 0, 3); if (p->style == ST_GSISX && p->nrhs == 0) p->nrhs = 1;
     p->ldb = p->n + rng_int(r, 0, 2);
@@ -99,10 +101,10 @@ static void plan_gen(rng_t *r, int thorough, char ty, int stream, plan_t *p) {
     /* fill-heavy inputs so that the growable arrays really expand: arrow pointing the wrong way, natural order, small fill estimate */
     int heavy = rng_chance(r, 0.3) && p->tune[1] != 0;
     if (heavy) { pat = rng_chance(r, 0.6) ? PAT_ARROW : PAT_DENSE; p->colperm = 0; p->tune[6] = rng_int(r, 4, 6); if (p->n < 10) p->n = rng_int(r, 10, thorough ? 40 : 24); p->ldb = p->n + rng_int(r, 0, 2); val = VAL_DIAGDOM; nonsing = 2; }
-    if (p->style == ST_GSISX && stream != 2) { val = rng_chance(r, 0.5) ? VAL_GENERIC : VAL_DIAGDOM; nonsing = 2; }
+    if (p->style == ST_GSISX && !risky) { val = rng_chance(r, 0.5) ? VAL_GENERIC : VAL_DIAGDOM; nonsing = 2; }
     if (stream == 0 && rng_chance(r, 0.12) && p->style != ST_GSISX && p->n >= 2) { p->singular = 1; p->colperm = 0; p->nr = 0; p->u = 1.0; val = VAL_DIAGDOM; nonsing = 2; p->symm = 0; }
     if (stream == 1) { p->singular = 2; nonsing = rng_chance(r, 0.4) ? 0 : nonsing; if (rng_chance(r, 0.4)) val = VAL_SMALLINT; }
-    if (stream == 2 && rng_chance(r, 0.4)) nonsing = rng_chance(r, 0.5) ? 0 : 1;
+    if (risky && rng_chance(r, 0.4)) nonsing = rng_chance(r, 0.5) ? 0 : 1;
     gmat_gen(r, p->n, p->n, pat, val, nonsing, cplx, &p->g);
     if (p->singular == 1) gmat_drop_row(&p->g, p->n - 1);
     if (p->singular == 2 && p->n >= 2) { int k = rng_int(r, 0, 2);
@@ -120,7 +122,7 @@ static void plan_gen(rng_t *r, int thorough, char ty, int stream, plan_t *p) {
         if (p->style == ST_GSISX) p->oos_mode = OOS_FAULT;
     }
     p->nsteps = rng_int(r, 0, 5); for (int s = 0; s < 8; s++) p->steps[s] = rng_int(r, 0, 119);
-    if (stream == 2) { static const int rules[] = { DROP_BASIC | DROP_PROWS, DROP_BASIC | DROP_COLUMN, DROP_BASIC | DROP_AREA, DROP_BASIC | DROP_DYNAMIC, DROP_BASIC | DROP_INTERP | DROP_AREA, DROP_BASIC };
+    if (risky) { static const int rules[] = { DROP_BASIC | DROP_PROWS, DROP_BASIC | DROP_COLUMN, DROP_BASIC | DROP_AREA, DROP_BASIC | DROP_DYNAMIC, DROP_BASIC | DROP_INTERP | DROP_AREA, DROP_BASIC };
                        p->ilu_drop = rules[rng_int(r, 0, 5)]; p->ilu_fill = 1.0 + rng_int(r, 0, 9); }
     else { p->ilu_drop = rng_chance(r, 0.5) ? DROP_BASIC : (DROP_BASIC | DROP_AREA); p->ilu_fill = 10.0; }
     p->ilu_milu = rng_int(r, 0, 3); p->ilu_rowperm = rng_chance(r, 0.5); p->ilu_droptol = rng_chance(r, 0.3) ? 0.0 : 1e-4 * rng_int(r, 1, 100);
@@ -134,7 +136,8 @@ static void lifecycle_case(ctx_t *c, long idx, rng_t *r, int stream) {
     char ty = pick_ty(c, idx);
     plan_t p; plan_gen(r, c->thorough, ty, stream, &p);
     trace_t t1, t2; obuf_t o1, o2; memset(&t1, 0, sizeof t1); memset(&t2, 0, sizeof t2); memset(&o1, 0, sizeof o1); memset(&o2, 0, sizeof o2);
-    out_begin_marker(c->family, idx);
+    /* BEGIN marker with the input class: `check` appends it to the message of a crash of this case */
+    fprintf(stderr, "BEGIN %s %ld %s style=%s%s\n", c->family, idx, stream == 0 ? "main" : stream == 1 ? "singular-input" : "ilu-risky", style_names[p.style], p.singular ? " singular" : ""); fflush(stderr);
     if (getenv("LIFECYCLE_DEBUG")) fprintf(stderr, "PLAN style=%s ty=%c n=%d nnz=%ld pat=%s val=%s nr=%d colperm=%d equil=%d trans=%d refine=%d cond=%d u=%g singular=%d query=%d oos=%d lwork=%d fault_k=%ld nsteps=%d ilu(drop=0x%x fill=%g milu=%d mc64=%d tol=%g) tuning=%d,%d,%d,%d,%d,%d,%d\n",
         style_names[p.style], p.ty, p.n, p.g.nnz, p.g.pat, p.g.val, p.nr, p.colperm, p.equil, p.trans, p.refine, p.cond, p.u, p.singular, p.query_first, p.oos_mode, p.lwork_small, p.fault_k, p.nsteps,
         p.ilu_drop, p.ilu_fill, p.ilu_milu, p.ilu_rowperm, p.ilu_droptol, p.tune[1], p.tune[2], p.tune[3], p.tune[4], p.tune[5], p.tune[6], p.tune[7]);
